@@ -78,7 +78,7 @@ def run(res, tier):
     pl.warm(exe, [["-s", n, "-N", 8, "-T", 0.125, "--padding", 4] + IMPS["collimator"] for n in ns + [65]], "c05warm")
     # single deviations of the numerical options from the base run (collimator, middle current): each must leave the relation intact
     DEV = [["--InterpolateClamped", "true"], ["--InterpolationPoints", 3], ["--derivation", 3], ["--PhaseSpaceSize", 10], ["--PhaseSpaceShiftX", 2], ["--PhaseSpaceShiftY", -2], ["--alpha0", 3.5e-3],
-           ["--RenormalizeCharge", 5], ["--LinearRF", "false"], ["--padding", 2], ["--InterpolationPoints", 3, "--derivation", 3],
+           ["--RenormalizeCharge", 5], ["--RenormalizeCharge", 1], ["--LinearRF", "false"], ["--padding", 2], ["--InterpolationPoints", 3, "--derivation", 3],
            ["--RoundPadding", "false", "--padding", 3.3], ["--FPTrack", 0], ["--InterpolateClamped", "true", "--InterpolationPoints", 3],
            # a large synchronous phase (radiation loss a sizeable fraction of the RF voltage: 18 and 29 degrees), both RF models
            # (linear RF: with the sinusoidal voltage the potential well itself is no longer q^2/2 there - its cubic term tan(phi_s) x phase-per-length x q^3/6 is 0.06 at
